@@ -128,6 +128,23 @@ def observe(steps, wskip, variant=0):
             out.update(family=classify(e), where="validate")
     except Exception as e:
         out.update(family=classify(e), where="ctor")
+    # the drawn representation of the same class (representation/build.py), in the abstract class names
+    try:
+        from workflows.representation.build import get_workflow_representation
+        inv = {c.__name__: k for k, c in CLASSES.items()}
+        gr = get_workflow_representation(W)
+        kind = lambda n: {"WorkflowStepNode": "step", "WorkflowEventNode": "event", "WorkflowExternalNode": "external"}.get(
+            type(n).__name__, type(n).__name__)
+        nm = lambda x: inv.get(x, x)
+        nodes = sorted([nm(n.id), kind(n)] for n in gr.nodes)
+        cnt = {}
+        for e in gr.edges:
+            k = (nm(e.source), nm(e.target))
+            cnt[k] = cnt.get(k, 0) + 1
+        out["repr"] = {"ok": 1, "nodes": nodes, "edges": sorted([a, b, n] for (a, b), n in cnt.items()),
+                       "dup_ids": int(len({n.id for n in gr.nodes}) != len(gr.nodes))}
+    except Exception as e:
+        out["repr"] = {"ok": 0, "nodes": [], "edges": [], "dup_ids": 0, "err": type(e).__name__}
     # the mechanism named by the property anchors, called directly on the same step configs
     try:
         cfgs = {name: f._step_config for name, f in W._get_steps_from_class().items()}
